@@ -48,6 +48,8 @@ type chanCase struct {
 
 type Op struct {
 	kind       opKind
+	obj        unsafe.Pointer // object the operation conflicts on (nil: thread-local step)
+	write      bool
 	cond       func() bool
 	cases      []chanCase
 	hasDefault bool
@@ -65,6 +67,7 @@ type Thread struct {
 	op     *Op
 	done   bool
 	daemon bool // blocked-forever is not a deadlock by itself
+	vc     vclock
 }
 
 type transition struct {
@@ -78,6 +81,8 @@ type ChoicePoint struct {
 	N     int
 	Costs []CostKind // per alternative
 	Taken int
+	FP    [2]uint64 // happens-before fingerprint of the state at this point
+	AltID []uint64  // schedule-independent identity of each alternative
 }
 
 type OutcomeKind int
@@ -88,10 +93,11 @@ const (
 	Panicked
 	StepLimit
 	Failed // vsched.Failf called with abort
+	Pruned // stopped early: state already explored (explorer's cache)
 )
 
 func (k OutcomeKind) String() string {
-	return [...]string{"completed", "deadlock", "panic", "step-limit", "failed"}[k]
+	return [...]string{"completed", "deadlock", "panic", "step-limit", "failed", "pruned"}[k]
 }
 
 type Failure struct {
@@ -138,7 +144,14 @@ type Sched struct {
 	objSeq   int
 	rngState uint64
 	keep     []interface{}
-	last     *Op // op just completed by the running thread (select completion)
+	objs     map[unsafe.Pointer]*objState
+	gvc      vclock
+	fp       [2]uint64
+	nev      int
+	// Prune, if set, is asked at every recorded choice point beyond the replayed
+	// prefix whether the execution can stop here (state already explored).
+	prune func(cp *ChoicePoint, pos int) bool
+	last  *Op // op just completed by the running thread (select completion)
 }
 
 // S is the current execution (nil when none). One execution per process at a time.
@@ -180,7 +193,7 @@ func Run(cfg Config, prefix []int, body func()) *Outcome {
 	if cfg.Horizon == 0 {
 		cfg.Horizon = time.Hour
 	}
-	s := &Sched{cfg: cfg, prefix: prefix, closed: map[unsafe.Pointer]bool{},
+	s := &Sched{cfg: cfg, prefix: prefix, closed: map[unsafe.Pointer]bool{}, objs: map[unsafe.Pointer]*objState{}, prune: pruneHook,
 		done: make(chan struct{}), abortAck: make(chan struct{}), rngState: 0x9E3779B97F4A7C15}
 	S = s
 	main := s.newThread("main", body)
@@ -292,6 +305,10 @@ func GoNamed(name string, fn func()) *Thread {
 	}
 	t := s.newThread(name, fn)
 	t.op = &Op{kind: opReady, desc: "start"}
+	if s.cur != nil {
+		s.event(s.cur, nil, false, 2) // spawn
+		t.vc = s.cur.vc.clone()
+	}
 	return t
 }
 
@@ -306,7 +323,10 @@ func GoDaemon(name string, fn func()) *Thread {
 
 // Point is a scheduling point with an operation that is enabled when cond()
 // holds (nil: always). It returns when this thread has been chosen to run.
-func Point(desc string, cond func() bool) {
+func Point(desc string, cond func() bool) { PointObj(desc, cond, nil, false) }
+
+// PointObj is Point for an operation that reads or writes the shared object obj.
+func PointObj(desc string, cond func() bool, obj unsafe.Pointer, write bool) {
 	s := S
 	if s == nil {
 		return
@@ -314,7 +334,7 @@ func Point(desc string, cond func() bool) {
 	if s.aborting {
 		return
 	}
-	op := &Op{kind: opReady, desc: desc}
+	op := &Op{kind: opReady, desc: desc, obj: obj, write: write}
 	if cond != nil {
 		op.kind = opCond
 		op.cond = cond
@@ -488,6 +508,7 @@ func (s *Sched) schedule() *Thread {
 				}
 			}
 			if q != nil {
+				s.barrier(5)
 				q.op = &Op{kind: opReady, desc: "quiescent"}
 				s.cur = q
 				return q
@@ -524,12 +545,25 @@ func (s *Sched) schedule() *Thread {
 				if hasTimerAlt {
 					cp.Costs[n-1] = CostD
 				}
+				cp.FP = s.fp
+				cp.AltID = make([]uint64, n)
+				for i, tr := range trs {
+					cp.AltID[i] = tr.id()
+				}
+				if hasTimerAlt {
+					cp.AltID[n-1] = ^uint64(0)
+				}
 				pos := len(s.trace)
 				if pos < len(s.prefix) {
 					idx = s.prefix[pos]
 					if idx >= n {
 						panic(fmt.Sprintf("vsched: replay divergence at choice %d: want alt %d of %d", pos, idx, n))
 					}
+				} else if s.prune != nil && s.prune(&cp, pos) {
+					s.out.Kind = Pruned
+					s.trace = append(s.trace, cp)
+					s.end()
+					return nil
 				}
 				cp.Taken = idx
 				s.trace = append(s.trace, cp)
@@ -546,8 +580,19 @@ func (s *Sched) schedule() *Thread {
 	}
 }
 
+func (tr transition) id() uint64 {
+	h := mix(0x452821E638D01377, uint64(tr.t.ID)+1)
+	h = mix(h, uint64(tr.caseIdx+2))
+	if tr.partner != nil {
+		h = mix(h, uint64(tr.partner.ID)+1)
+		h = mix(h, uint64(tr.partCase+2))
+	}
+	return h
+}
+
 func (s *Sched) apply(tr transition) {
 	op := tr.t.op
+	defer s.applyEvents(tr)
 	if s.cfg.LogEvents {
 		s.out.EventLog = append(s.out.EventLog, fmt.Sprintf("%d@%v %s[%d] %s case=%d", s.steps, s.clock, tr.t.Name, tr.t.ID, op.desc, tr.caseIdx))
 	}
@@ -565,12 +610,43 @@ func (s *Sched) apply(tr transition) {
 	}
 }
 
+// applyEvents records the happens-before events of a chosen transition.
+func (s *Sched) applyEvents(tr transition) {
+	t, op := tr.t, tr.t.op
+	switch op.kind {
+	case opChan:
+		tag := uint64(tr.caseIdx + 16)
+		if tr.partner != nil {
+			t.vc = t.vc.join(tr.partner.vc)
+		}
+		// a select reads the state of all its channels and writes the chosen one
+		for i := range op.cases {
+			if i != tr.caseIdx && op.cases[i].ptr != nil && (len(op.cases) > 1) {
+				s.event(t, op.cases[i].ptr, false, 3)
+			}
+		}
+		if tr.caseIdx >= 0 {
+			s.event(t, op.cases[tr.caseIdx].ptr, true, tag)
+		} else {
+			s.event(t, nil, false, tag)
+		}
+		if tr.partner != nil {
+			s.event(tr.partner, op.cases[tr.caseIdx].ptr, true, uint64(tr.partCase+16))
+			t.vc = t.vc.join(tr.partner.vc)
+		}
+	default:
+		s.event(t, op.obj, op.write, 4)
+	}
+}
+
 // Quiet makes subsequent choices take the default without being recorded
 // (used for non-branching setup prefixes). Calls nest.
 func Quiet(on bool) {
 	if S == nil {
 		return
 	}
+	// the quiet section's length is part of the state
+	S.event(S.cur, nil, false, 6)
 	if on {
 		S.quiet++
 	} else if S.quiet > 0 {
@@ -592,6 +668,11 @@ func Choose(n int, kind CostKind) int {
 	for i := 1; i < n; i++ {
 		cp.Costs[i] = kind
 	}
+	cp.FP = s.fp
+	cp.AltID = make([]uint64, n)
+	for i := range cp.AltID {
+		cp.AltID[i] = mix(0xBE5466CF34E90C6C, uint64(i)) ^ uint64(s.cur.ID+1)<<48
+	}
 	pos := len(s.trace)
 	idx := 0
 	if pos < len(s.prefix) {
@@ -602,6 +683,7 @@ func Choose(n int, kind CostKind) int {
 	}
 	cp.Taken = idx
 	s.trace = append(s.trace, cp)
+	s.event(s.cur, nil, false, 0x100+uint64(idx))
 	return idx
 }
 
@@ -633,6 +715,7 @@ func Observe(format string, a ...interface{}) {
 	if s == nil || s.aborting {
 		return
 	}
+	s.event(s.cur, unsafe.Pointer(&observeObj), true, 9)
 	s.out.Observed = append(s.out.Observed, fmt.Sprintf(format, a...))
 }
 
@@ -678,6 +761,9 @@ func NextID() int {
 		return 0
 	}
 	S.objSeq++
+	if !S.aborting {
+		S.event(S.cur, unsafe.Pointer(&rngObj), true, 11)
+	}
 	return S.objSeq
 }
 
@@ -688,6 +774,9 @@ func Rand64() uint64 {
 		st = &fallbackRng
 	} else {
 		st = &S.rngState
+		if !S.aborting {
+			S.event(S.cur, unsafe.Pointer(&rngObj), true, 10)
+		}
 	}
 	*st += 0x9E3779B97F4A7C15
 	z := *st
@@ -697,3 +786,5 @@ func Rand64() uint64 {
 }
 
 var fallbackRng uint64 = 1
+
+var observeObj, rngObj byte
